@@ -68,6 +68,21 @@ def clock_rp(detector) -> dict:
                 is_last_readout=bool(rp.is_last_readout))
 
 
+def _hx(v) -> str:
+    v = float(v)
+    return "nan" if v != v else v.hex()
+
+
+def rp_public(detector):
+    """Public state of the ReadoutProperties object the detector carries (None: no readout defined)."""
+    if not detector.is_dynamic:
+        return None
+    rp = detector.readout_properties
+    return dict(times=[_hx(t) for t in rp.times], steps=[_hx(t) for t in rp.steps], num=int(rp.num_steps),
+                start=_hx(rp.start_time), nd=bool(rp.non_destructive), time=_hx(rp.time),
+                step=_hx(rp.time_step), count=int(rp.pipeline_count))
+
+
 def observe(detector, where="first"):
     EXEC[0] += 1
     LOG.append(dict(where=where, clock=vp.clock(detector), clock_rp=clock_rp(detector), buckets=buckets(detector)))
